@@ -146,13 +146,13 @@ PROPS["C16"] = {
     "assumptions": ["lattice (integer degree) coordinates so that float arithmetic is exact", "no vertex at (0,0)"],
 }
 PROPS["C17"] = {
-    "props": ["OsmVerif.Props.C17", "OsmVerif.Props.C17b"],
+    "props": ["OsmVerif.Props.C17", "OsmVerif.Props.C17b", "OsmVerif.Props.C17c"],
     "gens": [],
-    "required_theorems": ["one_feature_per_element", "one_feature_per_element_counterexample", "node_feature_iff", "node_feature_content", "way_feature_geometry", "toRing_closed",
+    "required_theorems": ["one_feature_per_element", "one_feature_per_element_counterexample", "features_unique_except_shared_outer", "node_feature_iff", "node_feature_content", "way_feature_geometry", "toRing_closed",
                           "reorientOuter_ccw", "route_preserves_segments", "node_options_only_subtract", "way_options_only_subtract", "convert_noid_nometa", "convert_norelmembership",
                           "buildPolygon_skip", "buildPolygon_keeps", "buildPolygon_single_indep", "convert_includeInvalid"],
     "technique": "Lean 4 theorems about a hand-written executable model of osmgeojson.Convert (relation, way and node passes, options); tied by a differential line protocol and an independent element-to-feature oracle",
-    "level_text": "Machine-checked proof about the model of osmgeojson.Convert: the output never has more features than the input has elements, and every relation, way-pass and node-pass step yields at most one feature (one_feature_per_element). PARTIAL / known finding: 'at most one feature per input ELEMENT' is false of model and code alike when two old-style multipolygon relations (single outer way, untagged relation) share their outer way - each becomes a feature with that way's identity (one_feature_per_element_counterexample; KNOWN-FINDING duplicate-way-feature); the direct oracle checks uniqueness of (type, id) on every generated conversion and reports any other duplicate; a node becomes a point feature exactly when it is located and is not a way vertex, or has an interesting tag, or is a relation member, carrying its id, location and tags; a way becomes a line over its resolvable node coordinates in order, or for area ways a closed counter-clockwise polygon; a route's joined geometry uses every member line once and preserves every edge; NoID/NoMeta/NoRelationMembership change nothing on node and way features but the id string, the meta object and the relations list. On the WHOLE output, relation features included: Convert with NoID/NoMeta equals Convert without them with only the id string and the meta object removed from every feature, and Convert with NoRelationMembership equals Convert without it with only the relations list removed - same features, same order, same geometry and tags (so which elements get a feature does not depend on these options). IncludeInvalidPolygons never removes a feature and touches only multipolygon/boundary relations (convert_includeInvalid): with it the skippable way set, every way feature and every node feature are identical (route relations: buildRoute_withInvalid); a multipolygon with a single outer member does not consult it; and every feature of the output without it is still in the output with it, in the same order, with the same element, id, tags, tainted flag, relation membership and meta. What the option does to the GEOMETRY of a multipolygon with several outer rings is not characterised by a theorem (invalid outer rings are kept as additional polygons and holes are assigned among all of them, so a hole can move); that part is tied by the differential stream and the ring oracle only. Input immutability is covered by the differential stream (model vs real Convert under all 16 option sets, inputs compared before/after) and the element->feature oracle, not by a theorem; equal input gives equal output because the model is a function (the real code's determinism is checked by repeating conversions).",
+    "level_text": "Machine-checked proof about the model of osmgeojson.Convert: the output never has more features than the input has elements, and every relation, way-pass and node-pass step yields at most one feature (one_feature_per_element). PARTIAL / known finding: 'at most one feature per input ELEMENT' is false of model and code alike when two old-style multipolygon relations (single outer way, untagged relation) share their outer way - each becomes a feature with that way's identity (one_feature_per_element_counterexample; KNOWN-FINDING duplicate-way-feature); everything else IS unique (features_unique_except_shared_outer): with distinct ids per kind in the input, relation features are pairwise distinct, node features are pairwise distinct, the way features of the way pass are pairwise distinct and none repeats a way the relation pass emitted (it is in the skippable set), and the only other way features are the old-style multipolygons'; the direct oracle checks uniqueness of (type, id) on every generated conversion and reports any other duplicate; a node becomes a point feature exactly when it is located and is not a way vertex, or has an interesting tag, or is a relation member, carrying its id, location and tags; a way becomes a line over its resolvable node coordinates in order, or for area ways a closed counter-clockwise polygon; a route's joined geometry uses every member line once and preserves every edge; NoID/NoMeta/NoRelationMembership change nothing on node and way features but the id string, the meta object and the relations list. On the WHOLE output, relation features included: Convert with NoID/NoMeta equals Convert without them with only the id string and the meta object removed from every feature, and Convert with NoRelationMembership equals Convert without it with only the relations list removed - same features, same order, same geometry and tags (so which elements get a feature does not depend on these options). IncludeInvalidPolygons never removes a feature and touches only multipolygon/boundary relations (convert_includeInvalid): with it the skippable way set, every way feature and every node feature are identical (route relations: buildRoute_withInvalid); a multipolygon with a single outer member does not consult it; and every feature of the output without it is still in the output with it, in the same order, with the same element, id, tags, tainted flag, relation membership and meta. What the option does to the GEOMETRY of a multipolygon with several outer rings is not characterised by a theorem (invalid outer rings are kept as additional polygons and holes are assigned among all of them, so a hole can move); that part is tied by the differential stream and the ring oracle only. Input immutability is covered by the differential stream (model vs real Convert under all 16 option sets, inputs compared before/after) and the element->feature oracle, not by a theorem; equal input gives equal output because the model is a function (the real code's determinism is checked by repeating conversions).",
     "level_note": "Trusted: Lean kernel; correspondence harness; Way.Polygon is the C18 model; geojson property maps observed through type assertions/JSON; float coordinates exact on the lattice.",
     "design_ref": "DESIGN.md §5 C16/C17",
     "trusted_base": ["models Model/Geo.lean, Model/Convert.lean are hand-written; tie = differential stream through osmgeojson.Convert"],
